@@ -5,14 +5,15 @@ import ast
 import hashlib
 import os
 
+from harness.lib import pytranslate
 from harness.lib import sx as SX
 
 ID = "C13"
 COQ_DIR = "C13"
 RUN_MOD = "C13.Run"
 MODEL_TARGETS = ["C13/Run.vo"]
-PROOF_TARGETS = ["C13/Lemmas.vo"]
-PROPS = ["C13/Props.v"]
+PROOF_TARGETS = ["C13/Lemmas.vo", "C13/TransEq.vo"]
+PROPS = ["C13/Props.v", "C13/PropsTranslated.v"]
 ALLOWED_AXIOMS = []
 IMPL_TIMEOUT = 10.0
 COQ_SHARD = 80
@@ -44,6 +45,13 @@ TRUSTED_BASE = [
     "digits are outside the model) and tied by the correspondence check",
     "cell text lengths and value equality classes of the records are computed by the harness (len(str(v)), the enum "
     "length formula) and passed to the model; cell rendering itself is C12's subject, not modelled here",
+    "for the *_translated theorems (coq/C13/PropsTranslated.v): the shared translator harness/lib/pytranslate.py (Python ast -> Gallina, "
+    "fail closed, NOT verified; self test against CPython: `python -m harness.lib.pytranslate --selftest`) and coq/Common/PyLib.v "
+    "(f-strings of int / str = py_str_of_int / the text, str +=, ==, `is not None` on an Optional attribute as a case split, if/else); "
+    "c13.TO_FMT_STR_ATTRS: ReprColumn.to_fmt_str is translated as a function of the attributes it reads with the types "
+    "ReprColumn.__init__ gives them (name: str, fmt_modifier: Optional[str], break_by: bool, min_width, max_width: int, width: "
+    "Optional[int]); only the serializer of ONE column is translated -- the parser and the `cols;limits` splitter are not (they "
+    "build a record object by attribute stores and use str.split / find / index / strip(), outside the subset)",
 ]
 ASSUMPTIONS = [
     "field names are from the stated character set: no ',' ':' ';' '!' '/', no '<-', no leading/trailing white space; "
@@ -131,7 +139,52 @@ FUNCS = [("ReprColumn", "to_fmt_str"), ("_ColumnsParsedFmt", "_parse_cols_fmt"),
          ("PPTableFormat", "_get_fmt_str")]
 
 
+TO_FMT_STR_ATTRS = {"name": "str", "fmt_modifier": ("opt", "str"), "break_by": "bool", "min_width": "int", "max_width": "int",
+                    "width": ("opt", "int")}    # what ReprColumn.to_fmt_str reads of self, with the types ReprColumn.__init__ gives them
+
+
+def _translate(src):
+    """ReprColumn.to_fmt_str of the current source as a function of the attributes it reads -> coq/gen/C13_Translated.v, by the
+    shared translator harness/lib/pytranslate.py (fail closed); coq/C13/TransEq.v proves it equal to the hand model's col_to_str"""
+    tr = pytranslate.Translator(src, pytranslate.Config(source_name="ak/ppobj.py"))
+    rt = tr.add_function("ReprColumn.to_fmt_str", [], self_attrs=TO_FMT_STR_ATTRS)
+    tr.check_hygiene()
+    if rt != "str":
+        raise pytranslate.Unsupported(f"ReprColumn.to_fmt_str returns {rt}, str expected")
+    return tr.emit("ReprColumn.to_fmt_str")
+
+
+def _translation_stub(reason):
+    return pytranslate.stub(pytranslate.Config(source_name="ak/ppobj.py"), reason, [
+        ("T_ReprColumn_to_fmt_str", "(a_name : list Z) (a_fmt_modifier : option (list Z)) (a_break_by : bool) (a_min_width a_max_width : Z) "
+                                    "(a_width : option Z) : res (list Z)")])
+
+
 def gen_consts(repo):
+    """constants (literal extractor below) + translation (harness/lib/pytranslate.py).  The translation of THIS source (or the stub
+    saying why there is none) is written even when the extractor refuses the source; any refusal is raised."""
+    src = open(os.path.join(repo, "ak", "ppobj.py")).read()
+    try:
+        translated, terr = _translate(src), None
+    except pytranslate.Unsupported as e:
+        translated, terr = _translation_stub(str(e)), e
+    from harness.lib import coqrun
+    try:
+        gens = _gen_consts_only(repo)
+    except Exception:
+        with coqrun.Lock():
+            coqrun.write_gen("C13_Translated", translated)
+        raise
+    gens["C13_Translated"] = translated
+    if terr is not None:
+        with coqrun.Lock():
+            for name, text in gens.items():
+                coqrun.write_gen(name, text)
+        raise ExtractError(f"translator (harness/lib/pytranslate.py): {terr}")
+    return gens
+
+
+def _gen_consts_only(repo):
     src = open(os.path.join(repo, "ak", "ppobj.py")).read()
     tree = ast.parse(src)
     lines = ["(* generated from ak/ppobj.py by harness/props/c13.py -- do not edit *)",
@@ -1255,7 +1308,10 @@ def shrink_candidates(case):
             yield c
 
 
-TECHNIQUE = ("Coq proofs (induction over strings / column lists / record lists) on a hand-written Gallina model of the fmt "
+TECHNIQUE = ("Second tie (serializer of one column only): ReprColumn.to_fmt_str is translated from the current source to Gallina on every run by "
+             "the shared fail-closed translator harness/lib/pytranslate.py (coq/gen/C13_Translated.v), proved equal to the hand model's "
+             "col_to_str (coq/C13/TransEq.v) and col_roundtrip is restated with it (coq/C13/PropsTranslated.v).  First tie: "
+             "Coq proofs (induction over strings / column lists / record lists) on a hand-written Gallina model of the fmt "
              "mini-language and the table's format state (incl. tables made from format objects and sessions of several "
              "tables) + per-run correspondence check on life-cycle programs and multi-table sessions "
              "(vm_compute vs implementation) + literal pieces of serializer and parser regenerated from the source")
@@ -1291,7 +1347,9 @@ LEVEL_TEXT = ("Full at the level of the format state, for the stated domain: col
               "stale-width-after-remove-columns, now with equal views).  Outside the claim: value "
               "paths / enhanced fmt (DESIGN section 7), tables without columns, negative limits.  The literal pieces of serializer and parser, the enum "
               "modifiers and FieldType's default bounds are re-read from the source on every run (consts_ok).")
-LEVEL_NOTE = ("Trusted: Coq kernel + vm_compute; fidelity of the hand model (checked on ~430 / ~6000 life-cycle programs and "
+LEVEL_NOTE = ("translated_to_fmt_str_eq / col_roundtrip_translated (coq/C13/PropsTranslated.v, closed): trusted = the translator "
+              "harness/lib/pytranslate.py + coq/Common/PyLib.v and the declared attribute types, not the hand model's col_to_str; the "
+              "parser half of the round trip is still the hand model's.  Otherwise -- Trusted: Coq kernel + vm_compute; fidelity of the hand model (checked on ~430 / ~6000 life-cycle programs and "
               "~175 / ~2400 multi-table sessions per run by per-step digests of str(t.fmt), errors' classes, widths and body line counts; not proved); the hand "
               "model of int()/str()/strip/split/find (ASCII digits); harness-side cell lengths; the ast extractor. "
               "Print Assumptions: closed under the global context for every theorem.")
